@@ -477,6 +477,7 @@ func c18CrashBody(c *core.Ctx) {
 				continue
 			}
 			c.Begin(idx, map[string]any{"pair": p.label, "via": via})
+			failAt := 0
 			run := func(killAt int, tear float64) (*gate.Result, string) {
 				root, err := os.MkdirTemp(c.Scratch, "c18k-")
 				if err != nil {
@@ -489,7 +490,7 @@ func c18CrashBody(c *core.Ctx) {
 				jb, _ := json.Marshal(c18Crash{Root: root, Name: "victim", New: filepath.Join(root, "new.txt"), Via: via})
 				sf := filepath.Join(root, "spec.json")
 				_ = os.WriteFile(sf, jb, 0644)
-				res, err := gate.Run(gate.Opts{Watch: []string{filepath.Join(root, "dags")}, FromMarker: true, KillAt: killAt, Tear: tear,
+				res, err := gate.Run(gate.Opts{Watch: []string{filepath.Join(root, "dags")}, FromMarker: true, KillAt: killAt, Tear: tear, FailAt: failAt, Errno: 28,
 					Env: []string{"TZ=UTC"}, Timeout: 60 * time.Second}, c.Scratch, self, "c18worker", sf)
 				if err != nil {
 					os.RemoveAll(root)
@@ -579,6 +580,52 @@ func c18CrashBody(c *core.Ctx) {
 					os.RemoveAll(kroot)
 				}
 			}
+			// the same positions with an I/O error instead of a kill: system call k returns
+			// ENOSPC and the saving process runs on; a save that then reports failure is a
+			// rejected save (old text complete), one that reports success holds the new text
+			for k := 1; k <= N; k++ {
+				failAt = k
+				fres, froot := run(0, 0)
+				failAt = 0
+				if fres == nil || fres.TimedOut {
+					c.Inconclusive("c18 fail-injection run failed")
+					continue
+				}
+				c.Eval(1)
+				if !fres.Failed {
+					os.RemoveAll(froot)
+					continue
+				}
+				c.Count("io_errors_injected", 1)
+				c.Count("obligations", 2)
+				acked, errd := false, false
+				for _, a := range fres.Acks {
+					if a == "ACK" {
+						acked = true
+					}
+					if strings.HasPrefix(a, "ERR") {
+						errd = true
+					}
+				}
+				where := res.Events[k-1].Label()
+				b, rerr := os.ReadFile(filepath.Join(froot, "dags", "victim.yaml"))
+				desc := map[string]any{"pair": p.label, "via": via, "enospc_at": k, "of": N, "syscall": res.Events[k-1], "save_reported": map[bool]string{true: "success", false: "failure"}[acked]}
+				switch {
+				case rerr != nil:
+					c.Violate(idx, "save-ioerror-file-gone|"+where, "after an I/O error during the save the definition file does not exist", desc)
+				case acked && !refused && string(b) != p.new_:
+					c.Violate(idx, "save-ioerror-acked-not-new|"+where, fmt.Sprintf("the save reported success although a system call failed, and the file holds %d bytes that are not the new text", len(b)), desc)
+				case errd && string(b) != p.old:
+					c.Violate(idx, "save-ioerror-partial|"+where, fmt.Sprintf("the save reported failure (ENOSPC at %s) but the file no longer holds the complete old text (%d bytes now, old %d, new %d)", where, len(b), len(p.old), len(p.new_)), desc)
+				case !acked && !errd:
+					c.Count("save_died_on_io_error", 1)
+				}
+				if bb, err := os.ReadFile(filepath.Join(froot, "dags", "bystander.yaml")); err != nil || string(bb) != mk(20, "bys") {
+					c.Violate(idx, "save-ioerror-bystander|"+where, "another DAG's definition changed during a failing save", desc)
+				}
+				c.Sig(via, p.label, "enospc", k)
+				os.RemoveAll(froot)
+			}
 			c.End(idx)
 			idx++
 		}
@@ -608,6 +655,6 @@ func init() {
 				{Name: "crash", Mode: "crash", Shards: 8, Timeout: 60 * time.Minute},
 			}
 		},
-		Rule:        "Model pass: 1600 (24000) sequences of 30 (60) operations over 3-6 DAG names drawn from a hostile pool (spaces, glob metacharacters * ? [ ] \\, dots, the compaction suffix, a timestamp look-alike, unicode): create, save (valid generated definitions, minimal, 5 kB / 1 MiB, empty, four kinds of invalid text), rename (onto free and onto existing names, of missing DAGs), delete, list, and recorded runs (real jsondb Open/Write*/Close with unique write ids) — one third of the operations through the assembled web API (POST /dags, POST action save/rename, DELETE), the rest through client.Client. After EVERY operation the whole observable state is compared with a reference model: bytes of every definition (file and GetDAGSpec), the set of definition files, the history of every DAG (request id -> last write id through ReadStatusRecent), no history under names that were renamed away or deleted. Crash pass (fault enumeration): a worker process performing UpdateSpec / client.UpdateDAG is SIGKILLed by the ptrace supervisor before EVERY watched system call of the save under the DAGs directory, and every write is torn at 1/2 (thorough: 1 byte, 1/4, 1/2, L-1), for 4 (8) old/new size pairs; the surviving file must hold the complete old or the complete new text (the new one if the save was acknowledged), a bystander definition must be unchanged. Non-trivial = every sequence / every delivered kill; distinct = (sequence ops) / (pair, k, tear).",
+		Rule:        "Model pass: 1600 (24000) sequences of 30 (60) operations over 3-6 DAG names drawn from a hostile pool (spaces, glob metacharacters * ? [ ] \\, dots, the compaction suffix, a timestamp look-alike, unicode): create, save (valid generated definitions, minimal, 5 kB / 1 MiB, empty, four kinds of invalid text), rename (onto free and onto existing names, of missing DAGs), delete, list, and recorded runs (real jsondb Open/Write*/Close with unique write ids) — one third of the operations through the assembled web API (POST /dags, POST action save/rename, DELETE), the rest through client.Client. After EVERY operation the whole observable state is compared with a reference model: bytes of every definition (file and GetDAGSpec), the set of definition files, the history of every DAG (request id -> last write id through ReadStatusRecent), no history under names that were renamed away or deleted. Crash pass (fault enumeration): a worker process performing UpdateSpec / client.UpdateDAG is SIGKILLed by the ptrace supervisor before EVERY watched system call of the save under the DAGs directory, and every write is torn at 1/2 (thorough: 1 byte, 1/4, 1/2, L-1), for 4 (8) old/new size pairs; the surviving file must hold the complete old or the complete new text (the new one if the save was acknowledged), a bystander definition must be unchanged. The same positions are then replayed with an I/O error instead of a kill (the system call returns ENOSPC and the process runs on): a save that reports failure must have left the complete old text, one that reports success the new text. Non-trivial = every sequence / every delivered kill; distinct = (sequence ops) / (pair, k, tear).",
 		Assumptions: []string{"validity of a candidate text is decided by construction (generated valid documents vs. syntax error / unknown field / nameless step / impossible cron); the empty text is not judged", "SIGKILL semantics: user-space buffers are lost, the page cache is not"}})
 }
